@@ -135,6 +135,9 @@ class Check:
                     i.ok = True
                     i.what = "shape not recognised, but the function is proven equal to the reference (E8): " + i.what
                 violations, self.errors = [], []
+                self.assume("E8 (vgraph.py): equal value-graph fingerprints imply equal behaviour, given its purity tables (numpy / math "
+                            "functions and the listed builtin / str / dict methods do not mutate), that results of scalar mathematics have "
+                            "no identity, that `!=` complements `==`, and that a logger call or a dead attribute load is not behaviour")
             else:
                 self.extra["e8_unproven"] = eq["unproven"][:12]
         per_rule = {}
